@@ -139,8 +139,9 @@ class Page:
     """one page: handler path, vary rules (rule name, xform, default, request header name or None), server cache
     preference (2 Full / 1 QueryMatters), body prefix, and the path or pattern its rule set is registered under"""
 
-    def __init__(self, path, rules, spref=2, prefix=None, rule_path=Ellipsis, echo=None):
+    def __init__(self, path, rules, spref=2, prefix=None, rule_path=Ellipsis, echo=None, picky=False):
         self.path, self.rules, self.spref, self.prefix = path, rules, spref, prefix
+        self.picky = picky                              # handler kind 6: no server caching for some tuples
         self.rule_path = path if rule_path is Ellipsis else rule_path
         self.echo = rules if echo is None else echo     # what the handler renders (normally the rules' tuple)
 
@@ -218,7 +219,9 @@ def config(pages, cache=True, default_ext=False, report=None):
         prefix = pg.prefix if pg.prefix is not None else b"T%d" % i
         # QueryMatters pages echo the query too (handler kind 5, harness/src/c05.rs): a variant served for another
         # query is then visible in the body
-        hs.append(pipe.H(pg.path, kind=5 if pg.spref == 1 else 3, body=prefix, spref=pg.spref, tuple_=tup))
+        # picky pages (handler kind 6, harness/src/c05.rs): the handler declares no server caching for the tuples whose
+        # first component is empty or starts with 'n', 'z', '0': variants that handle_vary_missing must not admit
+        hs.append(pipe.H(pg.path, kind=6 if pg.picky else 5 if pg.spref == 1 else 3, body=prefix, spref=pg.spref, tuple_=tup))
         if pg.rule_path is not None and pg.rule_path not in seen and (pg.rules or i % 2 == 0 or pg.rule_path != pg.path):
             seen.add(pg.rule_path)
             vs.append(pipe.vary_rule(pg.rule_path, [(n, xf, d) for (n, xf, d, _) in pg.rules]))
@@ -467,6 +470,44 @@ def wire(rng):
     return mk(cfg, ops, "wire", spec=False, comp="vary.wire")
 
 
+def picky(rng, wire_=False):
+    """a page whose variants differ in cacheability (handler kind 6): the refused ones are recomputed by every request and
+    never enter the item (kvarn 8fe98d4), also when the date of a conditional request is fresh for the item (832d735)"""
+    rules = gen_rules(rng, rng.choice([1, 1, 2]))
+    while not rules or rules[0][3] is None:
+        rules = gen_rules(rng, rng.choice([1, 2]))
+    pages = [Page(b"/v", rules, picky=True)]
+    cfg = config(pages, report=WIRE_REPORT if wire_ else None)
+    xf0 = rules[0][1]
+    firsts = {0: [b"en", b"zz", b"", b"Nope", b"a", b"de", b"n"], 1: [b"apple", b"", b"zebra", b"Mango"], 2: [b"", b"abc", b"a", b"ab"],
+              3: [b"x", b""]}[xf0]
+    pool = []
+    for _ in range(rng.randrange(4, 9)):
+        hdrs = rand_headers(rng, rules[1:], encodings=False, p_repeat=0.0 if wire_ else 0.12)
+        hdrs = [(n, v) for (n, v) in hdrs if n != rules[0][3] and (not wire_ or v == v.strip(b" \t"))]
+        if wire_:
+            hdrs = [(n, v) for k, (n, v) in enumerate(hdrs) if n not in [m for (m, _) in hdrs[:k]]]
+        if rng.random() < 0.85:
+            hdrs.insert(rng.randrange(len(hdrs) + 1), (rules[0][3], rng.choice(firsts)))
+        pool.append(hdrs)
+    ops = []
+    for _ in range(rng.randrange(8, 18)):
+        hdrs = list(rng.choice(pool))
+        if rng.random() < 0.3:
+            hdrs.append((b"if-modified-since", b"@T+100" if rng.random() < 0.8 else b"@T-100"))
+        if wire_ and rng.random() < 0.2:
+            hdrs.append((b"range", rng.choice(RANGES)))
+        ops.append(pipe.req(b"/v", method=rng.choice([b"GET", b"GET", b"GET", b"HEAD"]), addr=1 if wire_ else rng.randrange(1, 4), headers=hdrs))
+        x = rng.random()
+        if x < 0.06:
+            ops.append(pipe.clear_page(b"/v"))
+        elif x < 0.2 and not wire_:
+            ops += dumps(pages)
+    if not wire_:
+        ops += dumps(pages)
+    return mk(cfg, ops, "picky-wire" if wire_ else "picky", spec=False, comp="vary.wire" if wire_ else "vary.run")
+
+
 def malformed(rng):
     """rule names that add_rule rejects (panic while the host is built), odd header values"""
     bad = rng.choice([b"x\x01a", b"x\x7f", b"caf\xc3\xa9", b"\x00"])
@@ -587,6 +628,8 @@ def generate(rng, tier):
         cases += [wire(rng) for _ in range(60)]
         cases += [malformed(rng) for _ in range(4)]
         cases += [interleaved(rng) for _ in range(30)]
+        cases += [picky(rng) for _ in range(40)]
+        cases += [picky(rng, True) for _ in range(12)]
     else:
         cases += exhaustive_orders(rng, 2, "orders", 20)
         cases += exhaustive_orders(rng, 3, "orders", 60)
@@ -602,6 +645,8 @@ def generate(rng, tier):
         cases += [wire(rng) for _ in range(1500)]
         cases += [malformed(rng) for _ in range(12)]
         cases += [interleaved(rng) for _ in range(600)]
+        cases += [picky(rng) for _ in range(1000)]
+        cases += [picky(rng, True) for _ in range(300)]
     return cases
 
 
@@ -615,6 +660,8 @@ def directed(rng, mismatches):
     cases += [with_prime(rng) for _ in range(150)]
     cases += [conditional(rng) for _ in range(100)]
     cases += [wire(rng) for _ in range(200)]
+    cases += [picky(rng) for _ in range(150)]
+    cases += [picky(rng, True) for _ in range(40)]
     return cases
 
 
@@ -751,12 +798,23 @@ class _Cfg:
     def vary_text(self, path):
         return b"accept-encoding, range" + b"".join(b", " + n for (n, _, _) in self.rules(path))
 
+    def refused(self, path, hdrs):
+        """handler kind 6 (harness/src/c05.rs): no server caching when the first component the handler renders is empty or
+        starts with 'n', 'z' or '0'"""
+        pg = self.pages[path]
+        if pg["kind"] != 6 or not pg["tuple"]:
+            return False
+        n, xf, d = pg["tuple"][0]
+        v = hdrs.get(n)
+        first = _xf(xf, v) if _text(v) else d
+        return first == b"" or first[:1] in (b"n", b"z", b"0")
+
     def rendering(self, path, query, hdrs):
         pg = self.pages[path]
         want = pg["prefix"]
         if pg["kind"] == 5 and query:
             want += b"?" + query
-        if pg["kind"] in (3, 5):
+        if pg["kind"] in (3, 5, 6):
             for (n, xf, d) in pg["tuple"]:
                 v = hdrs.get(n)
                 want += b"|" + (_xf(xf, v) if _text(v) else d)
@@ -828,6 +886,16 @@ def _history_oracle(c, out, wire_):
                 store.pop(("p", p_), None)
         elif kind == 2:
             store.clear()
+        elif kind == 4 and x != UNREADABLE and cf.cache and x[0] == "L" and len(x[1]) == 2:
+            # the stored variants of a page are exactly the tuples computed (and admitted) since the last clear
+            path, q = _split(o[1][1][1])
+            if path in cf.pages:
+                for slot, key in ((x[1][0], ("pq", path, q)), (x[1][1], ("p", path))):
+                    dumped = {tuple(v for (_, v) in _hc(h)) for h in slot[1][0][1]} if slot[1] else None
+                    if dumped != store.get(key):
+                        return ("dump #%d of %s: the stored variants %r are not the tuples computed and admitted since the last clear %r"
+                                % (n, o[1][1][1].decode("latin1"), sorted(dumped) if dumped else dumped,
+                                   sorted(store[key]) if key in store else None))
         if kind != 0 or x[0] != "L" or len(x[1]) < 5:
             continue
         method, target = o[1][2][1], o[1][3][1]
@@ -853,6 +921,9 @@ def _history_oracle(c, out, wire_):
         t = cf.own(path, hdrs)
         gh = method in (b"GET", b"HEAD")
         expect_calls = 1
+        # a response whose handler declares no server caching is never stored: not as a new item, not as a new variant of
+        # an item (kvarn 8fe98d4) - every request for it runs the handler
+        refused = cf.refused(path, hdrs)
         if gh and cf.cache:
             kpq, kp = ("pq", path, q), ("p", path)
             key = kpq if kpq in store else kp if kp in store else None
@@ -878,11 +949,13 @@ def _history_oracle(c, out, wire_):
                     continue
                 if t in store[key]:
                     expect_calls = 0
-                else:
+                elif not refused:
                     store[key].add(t)
-            else:
+            elif not refused:
                 store[kpq if cf.pages[path]["spref"] == 1 else kp] = {t}
         if len(log) != expect_calls:
+            if refused:
+                return where + "answered without a handler invocation although the handler declares no server caching for this tuple %r" % (t,)
             if expect_calls == 0:
                 return where + "the handler was invoked although a response for the transformed tuple %r is stored" % (t,)
             return where + ("no handler invocation although no response for the transformed tuple %r (query %r) was computed since the last clear"
